@@ -11,7 +11,7 @@ TRUSTED = [
 ]
 ASSUMPTIONS = [
     "parse / cfparse patterns are sequences of literals and capturing fields (one character class with one quantifier each); cfparse cardinality "
-    "fields and cucumber expressions are covered by the oracle only",
+    "fields are not generated; cucumber expressions are covered by the oracle only (suite cucumber_expressions)",
     "regular expressions (re, re0): alternation, greedy/lazy * + ?, named/unnamed/nested/optional groups, character classes are modelled "
     "(Regex.v, Python's backtracking priority); quantified bodies that can match the empty string, quantifiers nested in * or + bodies, "
     "look-around and back-references are not generated",
@@ -113,7 +113,44 @@ def available(pat, kind):
     return True
 
 
+CUKE = "cucumber_expressions"
+CUKE_FIELDS = {"int": ("{int}", r"-?\d+"), "word": ("{word}", r"[^\s]+"), "string": ("{string}", r'"(?:[^"\\]|\\.)*"|\'(?:[^\'\\]|\\.)*\''),
+               "anon": ("{}", r".*")}
+CUKE_SAMPLE = {"int": ["12", "-5", "007", "0"], "word": ["foo", "bar_1", "Ünï", "a-b"], "string": ['"a peel"', "'x y'", '""', '"7"'],
+               "anon": ["Alice", "two words", "", "7"]}
+
+
+def render_cuke(pat):
+    parts = []
+    for a in pat["alts"][0]:
+        if a[0] == "lit":
+            parts.append(a[1])
+        elif a[0] == "opt":
+            parts.append("%s(%s)" % (a[1], a[2]))
+        elif a[0] == "alt":
+            parts.append("/".join(a[1]))
+        else:
+            parts.append(CUKE_FIELDS[a[1]][0])
+    return "".join(parts)
+
+
+def cuke_regex(pat):
+    parts = []
+    for a in pat["alts"][0]:
+        if a[0] == "lit":
+            parts.append(re.escape(a[1]))
+        elif a[0] == "opt":
+            parts.append("%s(?:%s)?" % (re.escape(a[1]), re.escape(a[2])))
+        elif a[0] == "alt":
+            parts.append("(?:%s)" % "|".join(re.escape(x) for x in a[1]))
+        else:
+            parts.append("(%s)" % CUKE_FIELDS[a[1]][1])
+    return "(?:%s)" % "".join(parts)
+
+
 def render_pattern(pat, kind, end_anchor=True):
+    if kind == CUKE:
+        return render_cuke(pat)
     outs = []
     for alt in pat["alts"]:
         parts = []
@@ -269,7 +306,11 @@ def impl_history(case):
                     m = re.search(r"existing step .* at (\S+:\d+)\s*$", str(e), re.S)
                     outs.append(["ambiguous", kind, loc_of.get(m.group(1)) if m else None])
             elif op[0] == "use":
-                factory.use_step_matcher(op[1])
+                if op[1] == CUKE:
+                    from behave.cucumber_expression import use_step_matcher_for_cucumber_expressions
+                    use_step_matcher_for_cucumber_expressions()
+                else:
+                    factory.use_step_matcher(op[1])
             elif op[0] == "retype":
                 # the type name Number is declared again, now with another converter: definitions registered
                 # from here on are converted by the converter declared last
@@ -305,6 +346,8 @@ def impl_history(case):
 # ---------------------------------------------------------------- oracle
 def intended_regex(pat, kind):
     """the regular expression the pattern author means, built independently of behave: full match"""
+    if kind == CUKE:
+        return cuke_regex(pat)
     outs = []
     for alt in pat["alts"]:
         parts = []
@@ -467,6 +510,19 @@ def oracle(case, obs):
                         if exp is not None and a["value"] != exp:
                             out.append(("argument %r of %r: matched text %r, the declared converter (%s) yields %r, the argument carries %r" % (
                                 a["name"], text, orig, fld[1], exp, a["value"]), "argument-not-converted-as-declared"))
+            if want[1] == CUKE:
+                flds = [x for x in pat_w["alts"][0] if x[0] == "field"]
+                if len(flds) != len(args):
+                    out.append(("step %r matched by %r has %d arguments for %d parameters" % (text, render_cuke(pat_w), len(args), len(flds)),
+                                "arguments-not-passed-as-matched"))
+                else:
+                    for fld, a in zip(flds, args):
+                        orig = a["original"] if a["original"] is not None else ""
+                        exp = {"int": lambda t: ["int", int(t)], "word": lambda t: ["text", t], "anon": lambda t: ["text", t],
+                               "string": lambda t: ["text", re.sub(r"\\(.)", r"\1", t[1:-1])]}[fld[1]](orig)
+                        if a["value"] != exp:
+                            out.append(("parameter %s of %r: matched text %r, its parameter type yields %r, the argument carries %r" % (
+                                CUKE_FIELDS[fld[1]][0], text, orig, exp, a["value"]), "argument-not-converted-as-declared"))
             pos = [a["value"] for a in args if a["name"] is None]
             kw = sorted([a["name"], a["value"]] for a in args if a["name"] is not None)
 
@@ -910,6 +966,95 @@ def gen_case(rnd, factory_rate=0.04):
     return {"patterns": patterns, "nfuncs": nfuncs, "factory_funcs": factory_funcs, "locs": locs, "ops": ops}
 
 
+def make_cuke_pattern(rnd):
+    atoms = []
+    n = rnd.randint(1, 5)
+    fields = rnd.random() < 0.6           # parameterless expressions are a stratum of their own
+    for i in range(n):
+        sp = " " if atoms else ""
+        r = rnd.random()
+        if fields and r < 0.4:
+            atoms.append(("lit", sp)) if sp else None
+            atoms.append(("field", rnd.choice(list(CUKE_FIELDS)), None))
+        elif r < 0.55:
+            w = rnd.choice(["cucumber", "item", "user", "slice"])
+            atoms.append(("lit", sp)) if sp else None
+            atoms.append(("opt", w, rnd.choice(["s", "es", "s"])))
+        elif r < 0.7:
+            atoms.append(("lit", sp)) if sp else None
+            atoms.append(("alt", rnd.sample(["peel", "slice", "bowl", "plate", "is", "the"], rnd.randint(2, 3))))
+        else:
+            atoms.append(("lit", sp + rnd.choice(WORDS)))
+    merged = []
+    for a in atoms:
+        if a[0] == "lit" and merged and merged[-1][0] == "lit":
+            merged[-1] = ("lit", merged[-1][1] + a[1])
+        else:
+            merged.append(a)
+    if not any(a[0] in ("lit", "opt", "alt") and (a[0] != "lit" or a[1].strip()) for a in merged):
+        merged.insert(0, ("lit", "say "))
+    return {"alts": [merged], "end": True}
+
+
+def cuke_instance(rnd, pat, mutate=None):
+    parts = []
+    for a in pat["alts"][0]:
+        if a[0] == "lit":
+            parts.append(a[1])
+        elif a[0] == "opt":
+            parts.append(a[1] + (a[2] if rnd.random() < 0.5 else ""))
+        elif a[0] == "alt":
+            parts.append(rnd.choice(a[1]))
+        else:
+            parts.append(rnd.choice(CUKE_SAMPLE[a[1]]))
+    text = "".join(parts)
+    if mutate == "case":
+        text = text.swapcase()
+    elif mutate == "prefix":
+        text = "so " + text
+    elif mutate == "suffix":
+        text = text + " and more"
+    elif mutate == "literal":
+        i = rnd.randrange(len(text)) if text else 0
+        text = text[:i] + "Q" + text[i + 1:]
+    return text
+
+
+def gen_cuke_case(rnd):
+    """registration histories under the cucumber-expressions step matcher (oracle only)"""
+    patterns = [make_cuke_pattern(rnd) for _ in range(rnd.randint(1, 5))]
+    if rnd.random() < 0.5:
+        # a parameterless expression and a more general one that matches the same texts
+        w = rnd.choice(["cucumber", "item"])
+        patterns.append({"alts": [[("lit", "I have "), ("opt", w, "s")]], "end": True})
+        patterns.append({"alts": [[("lit", "I have "), ("field", rnd.choice(["word", "anon"]), None)]], "end": True})
+    nfuncs = rnd.randint(2, 5)
+    locs = {str(i): i for i in range(nfuncs)}
+    texts = set()
+    for p in patterns:
+        for mut in (None, None, None, "case", "prefix", "suffix", "literal"):
+            texts.add(cuke_instance(rnd, p, mut))
+    texts = sorted(texts)
+    rnd.shuffle(texts)
+    ops = [["use", CUKE]]
+    regs = []
+    for _ in range(rnd.randint(1, 8)):
+        if regs and rnd.random() < 0.15:
+            stype, pidx, fid = rnd.choice(regs)
+            if rnd.random() < 0.5:
+                fid = rnd.randrange(nfuncs)
+        else:
+            stype, pidx, fid = rnd.choice(TYPES), rnd.randrange(len(patterns)), rnd.randrange(nfuncs)
+        ops.append(["register", stype, pidx, fid])
+        regs.append((stype, pidx, fid))
+        if rnd.random() < 0.15:
+            ops.append(["lookup", rnd.choice(TYPES), rnd.choice(texts)])
+    for t in texts[:rnd.randint(4, 12)]:
+        for stype in rnd.sample(TYPES, rnd.randint(1, 2)):
+            ops.append(["lookup", stype, t])
+    return {"patterns": patterns, "nfuncs": nfuncs, "factory_funcs": [], "locs": locs, "ops": ops}
+
+
 def with_retype(rnd, patterns, ops):
     """Insert one ["retype"] op (Number declared again with the Small converter) while a parse-style matcher is current.
     Later registrations of a pattern with a Number field use a copy of the pattern whose fields are "number2"; a pattern
@@ -1014,4 +1159,10 @@ def suites(tier, seed):
                "coq": {"header": RX_HEADER, "in_ty": "bool * rx * ustr", "out_ty": "option (list rarg)",
                        "fn": "fun c => rx_check_match (fst (fst c)) (snd (fst c)) (snd c)",
                        "eqb": "option_eqb (list_eqb rarg_eqb)", "enc": enc_regex, "shard": 300}}
-    return [main, regexes]
+    ccases = [gen_cuke_case(rnd) for _ in range(1500 if thorough else 300)]
+    cukes = {"name": "cucumber_expressions", "cases": ccases, "impl": impl_history, "oracle": oracle,
+             "nontrivial": lambda c, o: any(x[0] == "bound" for x in o["outs"]),
+             "bound": "%d registration histories with look-ups under the cucumber-expressions matcher: literal words, optional text, alternative "
+                      "words, {int} {word} {string} {} parameters, parameterless expressions (oracle only: full-text match, precedence, "
+                      "ambiguity, parameter values and spans)" % len(ccases)}
+    return [main, regexes, cukes]
